@@ -93,6 +93,59 @@ class TaggedOdometry(EdgeOdometry):
         return e
 
 
+def sizes(run):
+    """Size dimension: files whose line count is a round number (powers of two and of ten, and their neighbours) -- writers and readers that
+    work in blocks have their boundaries there.  The re-imported graph has the same vertices and edges, in order, and the same chi^2."""
+    from graphslam.pose.se2 import PoseSE2
+    from graphslam.vertex import Vertex
+    rnd = random.Random(run.seed + 1313)
+    totals = [64, 100, 127, 128, 256, 500, 512, 999, 1000, 1001, 1024, 2000, 2048, 4096, 5000, 8192, 10000]
+    if run.tier == 'thorough':
+        totals += [16384, 20000, 32768, 50000, 65536, 100000]
+    tmpdir = tempfile.mkdtemp(prefix='verif-g2o-sizes-')
+    done = []
+    try:
+        for total in totals:
+            nv = max(2, (2 * total) // 5)
+            ne = total - nv
+            verts = [Vertex(j, PoseSE2([rnd.uniform(-20, 20), rnd.uniform(-20, 20)], rnd.uniform(-3.1, 3.1))) for j in range(nv)]
+            info = np.array([[2.0, 0.5, 0.0], [0.5, 3.0, 0.25], [0.0, 0.25, 1.0]])
+            edges = []
+            for n in range(ne):
+                a = n % nv
+                b = (a + 1 + (n // nv)) % nv
+                if a == b:
+                    b = (a + 1) % nv
+                edges.append(EdgeOdometry([a, b], info * (1 + n % 3), PoseSE2([rnd.uniform(-1, 1), rnd.uniform(-1, 1)], rnd.uniform(-0.5, 0.5))))
+            g = Graph(edges, verts)
+            path = os.path.join(tmpdir, 'n%d.g2o' % total)
+            key = dict(part='sizes', lines=total)
+            try:
+                g.to_g2o(path)
+                g2 = Graph.from_g2o(path)
+                with open(path) as f:
+                    nlines = sum(1 for _ in f)
+                c1, c2 = float(g.calc_chi2()), float(g2.calc_chi2())
+            except Exception as ex:  # noqa
+                run.violation(dict(key, outcome='raised'), 'round trip of a graph with %d vertices + %d edges raised %r' % (nv, ne, ex), dict(lines=total))
+                continue
+            finally:
+                if os.path.exists(path):
+                    os.unlink(path)
+            run.count(key=('sizes', total), nontrivial=True)
+            run.replayed += 1
+            done.append(total)
+            same = ([v.id for v in g2._vertices] == [v.id for v in verts] and [list(e.vertex_ids) for e in g2._edges] == [list(e.vertex_ids) for e in edges]
+                    and all(np.array_equal(np.asarray(a.pose)[:2], np.asarray(b.pose)[:2]) for a, b in zip(g2._vertices, verts)))
+            if nlines != total or not same or abs(c2 - c1) > 1e-9 * abs(c1):
+                run.violation(dict(key, outcome='different-graph'), 'graph with %d vertices + %d edges: the file has %d lines, the re-imported graph %d vertices + %d edges, chi2 %r -> %r' % (
+                    nv, ne, nlines, len(g2._vertices), len(g2._edges), c1, c2), dict(lines=total))
+    finally:
+        import shutil
+        shutil.rmtree(tmpdir, ignore_errors=True)
+    run.notes['file_sizes_round_tripped'] = done
+
+
 def lifecycle(run):
     """Binding B for the file round trip: sessions in which the graph is exported and re-imported BETWEEN other calls (optimizer runs, flag
     changes, queries) and then used further; every call is validated against GraphSLAM!Reload by Trace_GraphSLAM."""
@@ -312,6 +365,7 @@ def check(run):
         shutil.rmtree(tmpdir, ignore_errors=True)
     run.notes['round_trips'] = stats
     lifecycle(run)
+    sizes(run)
     if stats['expressible'] == 0 or stats['refused'] == 0:
         raise RuntimeError('vacuity guard: %r' % stats)
     run.rule = ('random real graphs (SE2+R2 / SE3+R3, odometry and landmark edges, offset parameters by id, shuffled lists, ids negative / > 2^40, quaternions with w<0, '
